@@ -150,6 +150,8 @@ type Thread struct {
 	waddr    uint64
 	sleeping bool
 	sleepGen int
+	yields   int  // vYield calls so far
+	yielding bool // blocked in vYield right now
 	noPreempt bool // resume the pending visible op without asking again
 	name     string
 	hits     map[string]int
@@ -159,6 +161,7 @@ type Thread struct {
 }
 
 type State struct {
+	clock int // vClock counter
 	p *Program
 	c *TermCtx
 	s *Solver
